@@ -244,7 +244,9 @@ Definition with_conn (w : world) (c : conn) : world := mkW (w_srv w) c (w_cs w) 
 Definition with_cs (w : world) (c : cstate) : world := mkW (w_srv w) (w_conn w) c (w_trace w).
 
 Inductive prim : Type -> Type :=
-| PConnect (ssl : bool) : prim (option err)    (* the dial function (implicit TLS: TCP + handshake under the context deadline) *)
+| PConnect (ssl bounded : bool) : prim (option err)   (* the dial function (implicit TLS: TCP + handshake); bounded: its
+                                                  context carries the connTimeout deadline *)
+| PConnTls : prim bool                         (* is the connection a tls.Conn? (smtp.NewClient sets c.tls by a type assertion on the connection) *)
 | PCmd (expect : N) (v : verb) : prim (res reply)   (* Client.cmd: Text.Cmd (Next, write), StartResponse, ReadResponse, EndResponse *)
 | PWrite (v : verb) : prim bool                (* write one line; false = the write failed *)
 | PRead : prim rres                            (* read one reply *)
@@ -307,7 +309,7 @@ Definition is_reply (r : rres) : bool := match r with RReply _ => true | _ => fa
 
 Definition run_prim {B : Type} (p : prim B) (w : world) : B * world :=
   match p in prim B return B * world with
-  | PConnect ssl =>
+  | PConnect ssl bounded =>
       let c := w_conn w in
       let s := w_srv w in
       if opened c then (Some EClosed, w)      (* a program opens at most one connection *)
@@ -321,12 +323,15 @@ Definition run_prim {B : Type} (p : prim B) (w : world) : B * world :=
             let (d, s2) := pop_decision s1 in
             (None, with_srv (with_conn w (mkConn true true true (armed c) (hung c))) (apply_decision s2 VGreeting d))
         | HsFail => (Some ETls, with_srv w (set_sopen s false))
-        | HsStall => (Some ETimeout, with_srv w (set_sopen s false))
+        | HsStall =>
+            if bounded then (Some ETimeout, with_srv w (set_sopen s false))
+            else (Some EHang, with_conn w (mkConn (opened c) (copen c) (ctls c) (armed c) true))   (* nothing bounds the handshake *)
         end
       else
         let (d, s1) := pop_decision s in
         (None, with_srv (with_conn w (mkConn true true false (armed c) (hung c))) (apply_decision s1 VGreeting d))
       end
+  | PConnTls => (ctls (w_conn w), w)
   | PCmd expect v =>
       (* Text.Cmd takes the next pipeline id and writes; a failed write returns before StartResponse: that id's
          response is never ended.  StartResponse(id) waits -- without any deadline -- until every earlier id's
@@ -706,10 +711,15 @@ Definition close_failed (cfg : config) : prog unit :=
 
 (* DialToSMTPClientWithContext *)
 (* the dial function under the deadline context; when it fails and a fallback port is set it is called once more *)
+(* T1: the fallback dial is the primary dial up to network / address: same dial function (the tls.Dialer for implicit
+   TLS), same deadline context *)
+Definition fb_same_callee : bool := Gen.fallback_dial_same_callee.
+Definition fb_same_ctx : bool := Gen.fallback_dial_same_ctx.
+
 Definition connect (cfg : config) : prog (option err) :=
-  c <- prim1 (PConnect (c_ssl cfg)) ;;
+  c <- prim1 (PConnect (c_ssl cfg) true) ;;
   match c with
-  | Some e => if c_fallback cfg then prim1 (PConnect (c_ssl cfg)) else Ret (Some e)
+  | Some e => if c_fallback cfg then prim1 (PConnect (c_ssl cfg && fb_same_callee) fb_same_ctx) else Ret (Some e)
   | None => Ret None
   end.
 
@@ -719,7 +729,8 @@ Definition dial (fuel : nat) (cfg : config) : prog (res unit) :=
   | Some e => Ret (Err e)
   | None =>
       (if fx_arm cfg then (prim1 PArm ;;; Ret tt) else Ret tt) ;;;
-      n <- new_client (c_ssl cfg) ;;
+      t <- prim1 PConnTls ;;
+      n <- new_client t ;;
       match n with
       | Err e => Ret (Err e)
       | Ok _ =>
@@ -921,6 +932,7 @@ Definition src_fx_arm : bool :=
   Gen.dial_arms_before_greeting && Gen.checkconn_deadline_before_noop && Gen.close_updates_deadline.
 Definition src_fx_send : bool := Gen.send_aborts_on_failed_rset.
 Definition src_cmd_endresp : bool := Gen.smtp_cmd_endresponse_always.
+Definition src_fallback_same : bool := Gen.fallback_dial_same_as_primary.
 (* no other deadline call exists (nothing clears or shortens the deadline) and each one is now + the timeout *)
 Definition src_deadline_sites_ok : bool := (Gen.deadline_call_sites =? 2) && Gen.deadline_args_are_timeout.
 
